@@ -30,6 +30,10 @@ pub enum EdgeChange {
     /// disconnect(u, key v)
     Del(usize, usize),
     Isolate(usize),
+    /// isolate the node, then remove it from the container (the container stays closed)
+    RemoveMember(usize),
+    /// insert the (isolated) node again
+    InsertMember(usize),
 }
 
 pub struct Scc;
@@ -133,8 +137,10 @@ fn reference(n: usize, edges: &[(usize, usize, u64)]) -> BTreeSet<BTreeSet<usize
     t
 }
 
-fn check_scc<F: Flavour>(g: &F::Graph, n: usize, edges: &[(usize, usize, u64)], phase: usize, stats: &mut Stats) -> Option<Violation> {
-    let want = reference(n, edges);
+fn check_scc<F: Flavour>(g: &F::Graph, n: usize, edges: &[(usize, usize, u64)], members: &BTreeSet<usize>, phase: usize, stats: &mut Stats) -> Option<Violation> {
+    // non-members are isolated (no edges), so the reference over all n nodes has them as
+    // singletons: drop those
+    let want: BTreeSet<BTreeSet<usize>> = reference(n, edges).into_iter().filter(|c| c.iter().all(|k| members.contains(k))).collect();
     if want.iter().any(|c| c.len() > 1) {
         stats.inc("graphs_with_nontrivial_component");
     }
@@ -184,10 +190,10 @@ fn check_scc<F: Flavour>(g: &F::Graph, n: usize, edges: &[(usize, usize, u64)], 
     if let Some(k) = dup {
         return Some(Violation::new("not-a-partition", format!("node {k} appears twice in {} {ctx}", show(&listed))));
     }
-    if seen.len() != n || listed.iter().any(|c| c.is_empty()) {
+    if seen != *members || listed.iter().any(|c| c.is_empty()) {
         return Some(Violation::new(
             "not-a-partition",
-            format!("components {} do not cover the {n} members exactly once {ctx}", show(&listed)),
+            format!("components {} do not cover the {} members exactly once {ctx}", show(&listed), members.len()),
         ));
     }
     let got_set: BTreeSet<BTreeSet<usize>> = listed.iter().map(|c| c.iter().copied().collect()).collect();
@@ -215,7 +221,7 @@ fn run<F: Flavour>(sc: &SccSc, stats: &mut Stats) -> Option<Violation> {
     let mut result = None;
     'inst: for (hs, order) in &sc.instances {
         hashseam::set_seed(*hs);
-        let nodes: Vec<F::Node> = (0..sc.n).map(|k| F::node_new(k, NVal::new(0, k as u64))).collect();
+        let nodes: Vec<F::Node> = (0..sc.n).map(|k| F::node_new(k, NVal::new((crate::rng::mix(*hs ^ k as u64) % 4) as u32, k as u64))).collect();
         let mut edges = sc.edges.clone();
         for (u, v, e) in &edges {
             F::connect(&nodes[*u], &nodes[*v], EVal::new(*e));
@@ -227,7 +233,8 @@ fn run<F: Flavour>(sc: &SccSc, stats: &mut Stats) -> Option<Violation> {
         if sc.n <= 64 {
             orders_seen.insert(F::g_iter(&g).iter().map(|(k, _)| *k).collect::<Vec<_>>());
         }
-        if let Some(v) = check_scc::<F>(&g, sc.n, &edges, 0, stats) {
+        let mut members: BTreeSet<usize> = (0..sc.n).collect();
+        if let Some(v) = check_scc::<F>(&g, sc.n, &edges, &members, 0, stats) {
             result = Some(v);
             break;
         }
@@ -236,8 +243,11 @@ fn run<F: Flavour>(sc: &SccSc, stats: &mut Stats) -> Option<Violation> {
             for ch in phase {
                 match ch {
                     EdgeChange::Add(u, v, e) => {
-                        F::connect(&nodes[*u], &nodes[*v], EVal::new(*e));
-                        edges.push((*u, *v, *e));
+                        // the container must stay closed under neighbours
+                        if members.contains(u) && members.contains(v) {
+                            F::connect(&nodes[*u], &nodes[*v], EVal::new(*e));
+                            edges.push((*u, *v, *e));
+                        }
                     }
                     EdgeChange::Del(u, v) => {
                         if let Ok(val) = F::disconnect(&nodes[*u], *v) {
@@ -250,9 +260,22 @@ fn run<F: Flavour>(sc: &SccSc, stats: &mut Stats) -> Option<Violation> {
                         F::isolate(&nodes[*u]);
                         edges.retain(|x| x.0 != *u && x.1 != *u);
                     }
+                    EdgeChange::RemoveMember(u) => {
+                        F::isolate(&nodes[*u]);
+                        edges.retain(|x| x.0 != *u && x.1 != *u);
+                        F::g_remove(&mut g, *u);
+                        members.remove(u);
+                        stats.inc("probe_member_removed_between_scc_calls");
+                    }
+                    EdgeChange::InsertMember(u) => {
+                        if !members.contains(u) {
+                            F::g_insert(&mut g, nodes[*u].clone());
+                            members.insert(*u);
+                        }
+                    }
                 }
             }
-            if let Some(v) = check_scc::<F>(&g, sc.n, &edges, pi + 1, stats) {
+            if let Some(v) = check_scc::<F>(&g, sc.n, &edges, &members, pi + 1, stats) {
                 result = Some(v);
                 break 'inst;
             }
@@ -283,6 +306,8 @@ impl Engine for Scc {
             rng.range(700, 1800)
         } else if small {
             rng.range(1, 4)
+        } else if rng.chance(1, 300) {
+            rng.range(31, 400)
         } else {
             rng.range(5, if tier == Tier::Quick { 16 } else { 30 })
         };
@@ -323,7 +348,7 @@ impl Engine for Scc {
             }
             1 => {
                 // dense random
-                let m = rng.below(n * n + 1);
+                let m = rng.below(if n > 30 { 6 * n } else { n * n } + 1);
                 for _ in 0..m {
                     let (u, v) = (rng.below(n), rng.below(n));
                     push(&mut edges, u, v);
@@ -409,6 +434,15 @@ impl Engine for Scc {
                                 cur.remove(p);
                             }
                         }
+                        9 if rng.coin() => {
+                            let u = rng.below(n);
+                            if rng.chance(2, 3) {
+                                ph.push(EdgeChange::RemoveMember(u));
+                                cur.retain(|x| x.0 != u && x.1 != u);
+                            } else {
+                                ph.push(EdgeChange::InsertMember(u));
+                            }
+                        }
                         _ => {
                             let u = rng.below(n);
                             ph.push(EdgeChange::Isolate(u));
@@ -465,6 +499,8 @@ impl Engine for Scc {
                                     EdgeChange::Add(u, v, e) => EdgeChange::Add(remap(*u)?, remap(*v)?, *e),
                                     EdgeChange::Del(u, v) => EdgeChange::Del(remap(*u)?, remap(*v)?),
                                     EdgeChange::Isolate(u) => EdgeChange::Isolate(remap(*u)?),
+                                    EdgeChange::RemoveMember(u) => EdgeChange::RemoveMember(remap(*u)?),
+                                    EdgeChange::InsertMember(u) => EdgeChange::InsertMember(remap(*u)?),
                                 })
                             })
                             .collect()
